@@ -547,8 +547,10 @@ def literal_diffs(rend, obs, tables):
         for o, default in tables["defaults"].items():
             if o == "copy_env":
                 exp = {"t": "bool", "v": bool(s["c"])}
-            elif o == s["r"]["o"] or o == "cmd":
+            elif o == s["r"]["o"]:
                 continue
+            elif o == "cmd":
+                exp = {"t": "str", "v": "sleep 60"}
             elif o in written:
                 exp = written[o]
             else:
@@ -635,7 +637,8 @@ def check_case(case, tables, rng, workdir, family, ident):
         return rec, rend
     d_code = matches(rend, case["code"], got)
     if not d_code and case["devs"]:
-        rec.update(status="dev", devs=list(case["devs"]), what=d_doc[0],
+        rec.update(status="dev", devs=list(case["devs"]),
+                   what=d_doc[0] + ((" [get_config raised %s]" % obs["error"]) if obs.get("error") else ""),
                    replay=replay("the real result is the one predicted with %s; the documentation says "
                                  "otherwise" % "+".join(case["devs"]), d_doc))
         return rec, rend
